@@ -6,6 +6,7 @@ real_const_ineq, int_const_ineq, real_norm): whenever `eval` returns a sequent, 
 exact rational evaluation by the independent evaluator `val` below (truncated subtraction at nat, x/0 = 0,
 x ^ n by repeated multiplication, negative integer real exponents as reciprocals; goals with variables
 are evaluated at several rational points)."""
+import os
 import itertools
 import random
 import sys
@@ -132,8 +133,8 @@ def gen_term(rng, T, size, vars_):
 
 def run(tier='quick', seed=0):
     t0 = time.time()
-    if '/repo' not in sys.path:
-        sys.path.insert(0, '/repo')
+    if os.environ.get('HOLPY_REPO', '/repo') not in sys.path:
+        sys.path.insert(0, os.environ.get('HOLPY_REPO', '/repo'))
     from logic import basic
     basic.load_theory('real')
     from kernel import term as K, theory
